@@ -19,6 +19,7 @@
 package dag
 
 import (
+	"crypto"
 	"encoding/base64"
 	"fmt"
 	"math"
@@ -112,6 +113,11 @@ func parseContentType(transaction *transaction, headers jws.Headers, _ *jws.Mess
 func parseSignatureParams(transaction *transaction, headers jws.Headers, _ *jws.Message) error {
 	if key, ok := headers.Get(jws.JWKKey); ok {
 		jwkKey := key.(jwk.Key)
+		// All private key types implement crypto.Signer: an embedded key that can be assigned to it is a private key.
+		var asPrivateKey crypto.Signer
+		if err := jwkKey.Raw(&asPrivateKey); err == nil {
+			return transactionValidationError("`jwk` header must not contain a private key")
+		}
 		transaction.signingKey = jwkKey
 	}
 	// Get the keyID from the header (not to be confused with the keyID from the embedded key)
